@@ -19,6 +19,10 @@ for p in sorted(glob.glob(os.path.join(V, 'units', '*', 'manifest.json'))):
     frag.setdefault('engine', 'cbmc-dfcc')
     checks.append(frag)
 base['checks'] = checks
+for e in base['engines']:
+    e['serves_properties'] = sorted(c['property_id'] for c in checks if c['engine'] == e['name'] or e['name'] in c.get('also_engines', []))
+for c in checks:
+    c.pop('also_engines', None)
 base['not_applicable'] = [n for n in base['not_applicable'] if n['property_id'] not in claimed]
 ids = [json.loads(l)['id'] for l in open(os.path.join(V, 'properties.jsonl'))]
 missing = [i for i in ids if i not in claimed and i not in [n['property_id'] for n in base['not_applicable']]]
